@@ -441,6 +441,44 @@ func (h *harness) checkOrdered(where string, lo, hi int64, visible func(id strin
 			return
 		}
 	}
+	// order of the traces (C09's clause for the trace engine): the index holds one entry per span, a trace appears where
+	// its first entry in scan order lies. Whatever the engine does with conditions, for two consecutive traces A, B of an
+	// ascending answer some span key of A is <= some span key of B (descending: >=); with one span per trace that is
+	// exactly key order.
+	keyOf := func(w int64) int64 {
+		if rule == wl.TraceTsRule {
+			return m.SpanByWid(w).Ts
+		}
+		return m.SpanByWid(w).Dur
+	}
+	type posID struct {
+		id  string
+		pos int
+	}
+	var seq []posID
+	for id, r := range got {
+		if len(r.Wids) > 0 {
+			seq = append(seq, posID{id, r.Pos})
+		}
+	}
+	sort.Slice(seq, func(i, j int) bool { return seq[i].pos < seq[j].pos })
+	for i := 1; i < len(seq); i++ {
+		a, b := got[seq[i-1].id].Wids, got[seq[i].id].Wids
+		minA, maxA, minB, maxB := keyOf(a[0]), keyOf(a[0]), keyOf(b[0]), keyOf(b[0])
+		for _, w := range a {
+			minA, maxA = min(minA, keyOf(w)), max(maxA, keyOf(w))
+		}
+		for _, w := range b {
+			minB, maxB = min(minB, keyOf(w)), max(maxB, keyOf(w))
+		}
+		if (!desc && minA > maxB) || (desc && maxA < minB) {
+			e.Fail("ordered-index", "traces-out-of-key-order", "%s: ordered query (%s desc=%v %s in [%d,%d]) returned trace %q (keys %d..%d) before trace %q (keys %d..%d)", where, rule, desc, condTag, cLo, cHi, seq[i-1].id, minA, maxA, seq[i].id, minB, maxB)
+			return
+		}
+	}
+	if len(seq) > 1 {
+		e.Probe("reach.order_of_traces_checked")
+	}
 	e.Probe("reach.ordered_query_checked")
 	// the number of matching traces depends on what samplers have removed so far (engine timing): diagnostics only
 	e.Event("%s: ordered query %s cond=%q: every matching trace whole", where, rule, condTag)
